@@ -21,6 +21,13 @@ def _p_len(eng, recv, args, kwargs):
 
 
 def _p_getitem(eng, recv, args, kwargs):
+    if isinstance(args[0], slice):
+        # the protocol `Trees` is __getitem__(int) / __len__: every container of the module (LazyLoadingTrees, ChainTrees: `key < -length`
+        # in _get_idx; NestTrees: a list used as an index of its container) answers a slice key with TypeError
+        eng.assumptions.add("C19-model: a `Trees` container (protocol: __getitem__(int), __len__) answers a slice key with TypeError")
+        from pyvc.engine import ProgExc
+
+        raise ProgExc(TypeError, "slice key handed to a Trees container")
     if not eng.spec_mode and not getattr(eng, "pure_mode", 0):
         # ghost log: a lookup in a member is a REQUEST for that member's tree (it may load a file there); clauses count
         # these with ncalls('Trees.__getitem__') / callarg('Trees.__getitem__', j, 'self' | 'key')
@@ -1070,6 +1077,109 @@ def register(R):  # noqa: F811
 TREES_FIELD = z3.Function("trees_of_population", _I, _I)  # ghost: the `trees` container of a population (opaque member)
 POP_PROTO = dict(TREES_PROTO)
 POP_PROTO[".trees"] = lambda eng, v: Opaque(TREES_FIELD(v.z), TREES_PROTO)
+ROOT_FIELD = z3.Function("root_of_population", _I, _I)  # ghost: the `root` string of a population (opaque member)
+
+
+def _as_population(p):
+    """an opaque member population as the object the REAL methods of `Population` run on: its container is the opaque `Trees`
+    value trees_of_population(p), its root the string root_of_population(p)"""
+    from swcgeom.core.population import Population
+    from pyvc.values import Obj
+
+    return Obj(Population, dict(trees=Opaque(TREES_FIELD(p.z), TREES_PROTO), root=X.StrRef(ROOT_FIELD(p.z))))
+
+
+def _pop_getitem(eng, recv, args, kwargs):
+    """`p[key]` of an opaque member population.  An int key is the protocol's item(p, key).  Any other key (a slice, built by
+    `x[a:b]` with symbolic bounds and handed on) is answered by the REAL `Population.__getitem__` of the tree under check, run
+    on the member as an object (`_as_population`): whatever it builds (a NestTrees view ...) is the value"""
+    from pyvc.values import kind_of
+
+    if kind_of(args[0]) in ("int", "bool") or isinstance(args[0], int):
+        return _p_getitem(eng, recv, args, kwargs)
+    o = _as_population(recv)
+    return eng.call(eng.getattr_(o, "__getitem__"), [args[0]], {})
+
+
+POP_PROTO["__getitem__"] = _pop_getitem
+
+
+def _pop_len(eng, recv, args, kwargs):
+    """len(p) of an opaque member population: tlen(p), which IS the length of its container (Population.__len__/post/number-of-trees)"""
+    eng.assumptions.add("C19-model: an opaque member population p has len(p) == len(p.trees) (verified: Population.__len__/post/number-of-trees)")
+    eng.assume(TLEN(recv.z) == TLEN(TREES_FIELD(recv.z)))
+    return _p_len(eng, recv, args, kwargs)
+
+
+POP_PROTO["__len__"] = _pop_len
+
+
+# A comprehension over a symbolic-length sequence whose ELEMENT is a container object (`[p[a:b] for p in self.populations]`: one
+# NestTrees view per member).  Such a list enters the rest of the proof the way every chain member does: as a list of `Trees`
+# references, each known through tlen / item only.  The length and the items of the element are NOT assumed: the element's REAL
+# `__len__` and `__getitem__` (repository code, inlined or through their contracts) are executed for an arbitrary position i of
+# the comprehension and an arbitrary in-range position t of the element; what they return defines tlen(V(i)) and item(V(i), t)
+# of the fresh reference V(i) (a definitional extension; obligations raised on the way are proved for arbitrary i, t).
+def _trees_element(eng, vv, i, nz, kind):
+    from pyvc.values import Obj, kind_of
+    from pyvc import models as _M
+
+    if kind not in ("list", "gen") or not isinstance(vv, Obj) or "__items__" in vv.fields or getattr(getattr(eng, "cur_contract", None), "prop", None) != "C19":
+        return None
+    ln_m, get_m = eng.find_method(vv.cls, "__len__"), eng.find_method(vv.cls, "__getitem__")
+    if ln_m is None or get_m is None or ln_m[0] != "func" or get_m[0] != "func":
+        return None
+    from pyvc.npmodels import skolemizer
+    from pyvc.values import next_uid
+
+    rng = z3.And(i >= 0, i < nz)
+    saved = list(eng.pc)
+    eng.pc.append(rng)
+    eng.pure_mode = getattr(eng, "pure_mode", 0) + 1
+    try:
+        ln = eng.call(eng.getattr_(vv, "__len__"), [], {})
+        lz = to_z3(ln, "int")
+        k1 = len(eng.pc)
+        u1 = next_uid()
+        t = z3.Int(f"vt_{next_uid()}")  # (not a `name!N` constant: it is a bound variable of the facts below, never a Skolem candidate)
+        eng.pc.append(z3.And(t >= 0, t < lz))
+        it = eng.call(eng.getattr_(vv, "__getitem__"), [Sym(t, "int")], {})
+        facts_len, facts_item = eng.pc[len(saved) + 1:k1], eng.pc[k1 + 1:]
+    finally:
+        eng.pure_mode -= 1
+        eng.pc = saved
+    if isinstance(it, Opaque):
+        it = Sym(it.z, "ref")
+    if kind_of(it) not in ("ref", "oref"):
+        return None
+    # values created while the element / its length / its item were evaluated belong to the position (i) resp. (i, t): Skolem form
+    sk_i, sk_it = skolemizer([i], getattr(eng, "comp_skolem_u0", u1)), skolemizer([i, t], u1)
+    both = lambda e: sk_i(sk_it(e))
+    lz, itz = sk_i(lz), both(to_z3(it, "int"))
+    V = z3.Function(fresh_name("view"), _I, _I)
+    for h in facts_len:
+        eng.assume(z3.ForAll([i], z3.Implies(rng, sk_i(h))))
+    for h in facts_item:
+        eng.assume(z3.ForAll([i, t], z3.Implies(z3.And(rng, t >= 0, t < lz), both(h))))
+    eng.assume(z3.ForAll([i], z3.Implies(rng, z3.And(TLEN(V(i)) == lz, lz >= 0)), patterns=[V(i)]))
+    eng.assume(z3.ForAll([i, t], z3.Implies(z3.And(rng, t >= 0, t < lz), ITEM(V(i), t) == itz), patterns=[ITEM(V(i), t)]))
+    eng.assumptions.add("ghost definition (list of container objects built over a symbolic-length sequence): element i is the `Trees` reference V(i) "
+                        "with tlen(V(i)) = what the element's real __len__ returns and item(V(i), t) = what its real __getitem__(t) returns, 0 <= t < tlen")
+    p = PList()
+    p.items, p.kinds, p.tup, p.n = None, ["ref"], False, z3.simplify(nz)
+    p.cols = [z3.Lambda([i], V(i))]
+    p.proto = TREES_PROTO
+    return Iter(p) if kind == "gen" else p
+
+
+def _install_element_hook():
+    from pyvc import models as _M
+
+    if _trees_element not in _M.EXTRA_ELEMENT_HOOKS:
+        _M.EXTRA_ELEMENT_HOOKS.append(_trees_element)
+
+
+_install_element_hook()
 
 
 def register_populations(R):
@@ -1169,9 +1279,63 @@ def register_populations(R):
 
         return f
 
+    # THE PROPERTY'S CLAUSE, over the populations themselves (any member lengths: unequal, empty members, one member, none):
+    # "chaining populations concatenates them in order with the right total length".  Member m of the chain is known through
+    # tlen / item only, so a chain built from other containers than `p.trees` (views, copies) is judged by what it CONTAINS.
+    def mlen(ps, m):
+        return TLEN(TREES_FIELD(z3.Select(ps.cols[0], m)))
+
+    def every_member_whole(E, v, o):
+        c, ps = chain_of(v), v["self"].fields["populations"]
+        if c is None or not isinstance(c.fields.get("trees"), PList) or c.fields["trees"].items is not None:
+            return False
+        L = c.fields["trees"]
+        m, t = z3.Int(fresh_name("m")), z3.Int(fresh_name("t"))
+        n = zint(ps.n)
+        Lm = z3.Select(L.cols[0], m)
+        return z3.And(zint(L.n) == n,
+                      z3.ForAll([m], z3.Implies(z3.And(m >= 0, m < n), TLEN(Lm) == mlen(ps, m))),
+                      z3.ForAll([m, t], z3.Implies(z3.And(m >= 0, m < n, t >= 0, t < mlen(ps, m)), ITEM(Lm, t) == ITEM(TREES_FIELD(z3.Select(ps.cols[0], m)), t))))
+
+    def total_is_sum(E, v, o):
+        c, ps = chain_of(v), v["self"].fields["populations"]
+        if c is None or not isinstance(c.fields.get("cumsum"), X.SArr):
+            return False
+        C = c.fields["cumsum"]
+        m = z3.Int(fresh_name("m"))
+        n = zint(ps.n)
+        total = chain_clause("len_(result) == self.cumsum[len_(self.trees)]")(E, v, o)
+        return E.and_(z3.And(C.nz() == n + 1, z3.Select(C.arr, 0) == 0,
+                             z3.ForAll([m], z3.Implies(z3.And(m >= 0, m < n), z3.Select(C.arr, m + 1) == z3.Select(C.arr, m) + mlen(ps, m))),
+                             zint(c.fields["trees"].n) == n), total)
+
+    def pops_inv(E, v, o):
+        """object invariant of a Populations (established by Populations.__init__/post/len-is-the-minimum-length-of-the-populations)"""
+        s = v["self"]
+        ps, ln = s.fields["populations"], to_z3(s.fields["len"], "int")
+        m = z3.Int(fresh_name("m"))
+        n = zint(ps.n)
+        return z3.And(n >= 1, z3.ForAll([m], z3.Implies(z3.And(m >= 0, m < n), z3.And(mlen(ps, m) >= 0, ln <= mlen(ps, m)))),
+                      z3.Exists([m], z3.And(m >= 0, m < n, ln == mlen(ps, m))))
+
+    def independent(label, f):
+        """a postcondition that is NOT a hypothesis of the later ones (fewer hypotheses: sound): the property's two clauses each imply
+        part of the other under the object invariant, so a chain that breaks both is reported under both names"""
+        def g(E, v, o):
+            n0 = len(E.pc)
+            E.prove(f"Populations.to_population/post/{label}", f(E, v, o), "postcondition")
+            del E.pc[n0:]
+            return True
+
+        return (label, g)
+
     R.add(f"{POP}:Populations.to_population", prop="C19",
           setup=lambda S: dict(self=pops_obj(S), __ghost__=GHOST),
+          requires=[("object-invariant:at-least-one-population-and-len-is-the-minimum-member-length", pops_inv)],
           ensures=[("a-population-on-a-chain-with-no-root", lambda E, v, o: chain_of(v) is not None and v["result"].fields.get("root") == ""),
+                   # (a failed clause is a hypothesis of the later ones: the property's own clauses come before the structural one and are independent)
+                   independent("total-length-is-the-sum-of-all-member-lengths:prefix-sums-over-the-populations", total_is_sum),
+                   independent("concatenation-of-all-members-in-order:one-chain-member-per-population-holding-all-of-its-trees-in-its-order", every_member_whole),
                    ("members-are-the-populations'-containers-in-order", members)]
           + [(lab.strip().replace("wf-", "chain/"), chain_clause(txt.strip())) for lab, txt in (c.split("::", 1) for c in WF_CHAIN)]
           + [("total-length-is-the-sum-of-the-member-lengths(last-prefix-sum)", chain_clause("len_(result) == self.cumsum[len_(self.trees)]")),
